@@ -19,7 +19,7 @@ open Galaxy Galaxy.Ipam
     `rollbackOnCreateFailure` as a parameter, so these theorems do not build when the rollback is gone) -/
 theorem fact_rollback :
     Generated.Ipam.rollbackOnCreateFailure = true ∧ Generated.Ipam.rollbackCoversAllCreated = true ∧
-    Generated.Ipam.memoryUpdatedAfterAllCreates = true ∧
+    Generated.Ipam.memoryUpdatedAfterAllCreates = true ∧ Generated.Ipam.rollbackKeepsUndeletedInMemory = true ∧
     Generated.Ipam.storeBeforeMemory.lookup "AllocateInSubnetsAndIPRange" = some true := by decide
 
 /-- "bound with exactly k distinct IPs, the i-th inside the i-th requested range and all routable from the chosen node,
@@ -41,10 +41,10 @@ theorem multi_alloc_success (s : State) (key subnet : String) (ranges : List (Li
   multi_alloc_success' hk hdis hown hres hok
 
 /-- "if that is not possible, or any store call fails, none of the k IPs stays allocated": whenever the operation
-    returns an error (not enough addresses, a create refused by the store, an injected fault at ANY call index), the
-    allocation table, the free table and the store (as a map) are what they were — provided no fault hits the rollback
-    deletes, which is guaranteed by "no injected fault" (a create conflicting with an undelivered reservation is rolled
-    back completely) or by "a single fault and no free address has a stored object". -/
+    returns an error (not enough addresses, a create refused by the store, an injected fault at ANY create index) and the
+    rollback succeeds — guaranteed by "no injected fault" (a create conflicting with an undelivered reservation is rolled
+    back completely) or by "a single fault and no free address has a stored object" — the allocation table, the free
+    table and the store (as a map) are what they were. -/
 theorem multi_alloc_failure (s : State) (key subnet : String) (ranges : List (List Range)) (a : Attr) (choice : Option IP)
     (pl : Plan) (hclean : pl.fails = [] ∨ (pl.fails.length ≤ 1 ∧ FreeUnstored s)) (e : Err)
     (he : (allocateInSubnetsAndRanges s key subnet ranges a choice pl).2.err = some e) (hec : e ≠ .crashed) :
@@ -53,6 +53,18 @@ theorem multi_alloc_failure (s : State) (key subnet : String) (ranges : List (Li
     (allocateInSubnetsAndRanges s key subnet ranges a choice pl).1.pools = s.pools ∧
     SameStore (allocateInSubnetsAndRanges s key subnet ranges a choice pl).1.store s.store :=
   allocRanges_failure hclean he hec
+
+/-- a create failure PLUS rollback-delete failures (any fault set): every address is either untouched (cache entry, store
+    entry, free status) or — its rollback delete failed — was free without stored object before and is now allocated
+    to the key in BOTH memory and store and no longer free.  Nothing is ever left owned in the store but free in memory
+    (`FailAt`). -/
+theorem multi_alloc_failure_general (s : State) (key subnet : String) (ranges : List (List Range)) (a : Attr)
+    (choice : Option IP) (pl : Plan) (e : Err)
+    (he : (allocateInSubnetsAndRanges s key subnet ranges a choice pl).2.err = some e) (hec : e ≠ .crashed) :
+    (allocateInSubnetsAndRanges s key subnet ranges a choice pl).1.pools = s.pools ∧
+    ∀ j, FailAt s (allocateInSubnetsAndRanges s key subnet ranges a choice pl).1 (mkRec key a s.clock) j :=
+  let h := allocRanges_failure_general he hec
+  ⟨h.1, h.2.1⟩
 
 /-- the property's quantifier ("a failure of any single object creation") on reachable quiet states: `Agree` and no
     pending admin event give `FreeUnstored`, so every single fault index leaves alloc, free and store unchanged -/
@@ -89,12 +101,21 @@ example : (allocateInSubnetsAndRanges s0 "pod" "10.0.1.0/24" req attr1 none { fa
 
 def sRes : State := (step s0 (.adminReserve 9 "pool__reserved-for-node_" 0)).1
 
-/-- COUNTER (known finding `rollback-delete-fault-leaks-object`, see C05): without the side condition the failure
-    half is false — the second create conflicts with a reservation whose event is still pending and the single injected
-    fault hits the rollback delete, whose error the code ignores: object 3 stays in the store. -/
-theorem multi_alloc_failure_counter :
-    (allocateInSubnetsAndRanges sRes "pod" "10.0.1.0/24" req attr1 none { fails := [2] }).2.err = some .exists_ ∧
+/-- the second clause is not vacuous: the second create conflicts with a reservation whose event is still pending and
+    the single injected fault hits the rollback delete — address 3 stays allocated to the pod in BOTH tables -/
+example : (allocateInSubnetsAndRanges sRes "pod" "10.0.1.0/24" req attr1 none { fails := [2] }).2.err = some .exists_ ∧
     ((allocateInSubnetsAndRanges sRes "pod" "10.0.1.0/24" req attr1 none { fails := [2] }).1.store.get 3).isSome = true ∧
-    sRes.store.get 3 = none := by decide
+    ((allocateInSubnetsAndRanges sRes "pod" "10.0.1.0/24" req attr1 none { fails := [2] }).1.alloc.get 3).isSome = true ∧
+    3 ∉ (allocateInSubnetsAndRanges sRes "pod" "10.0.1.0/24" req attr1 none { fails := [2] }).1.free := by decide
+
+/-- COUNTER (pre-fix code, `rollbackKeepsUndeletedInMemory = false`): the failed rollback delete was ignored — object 3
+    stayed in the store while address 3 stayed free in memory -/
+theorem multi_alloc_failure_counter :
+    let r := mkRec "pod" attr1 sRes.clock
+    let res := createAll true { fails := [2] } r [3, 9] [] 0 sRes.store
+    pickRanges sRes "10.0.1.0/24" req [] = some [3, 9] ∧ res.2.2 = [3] ∧
+    ((allocRangesFinish false sRes r [3, 9] res).1.store.get 3).isSome = true ∧
+    (allocRangesFinish false sRes r [3, 9] res).1.alloc.get 3 = none ∧
+    3 ∈ (allocRangesFinish false sRes r [3, 9] res).1.free := by decide
 
 end Galaxy.Props.C08
